@@ -8,10 +8,10 @@ from mapgen import parse_line, run_resilient
 
 
 class Prog:
-    __slots__ = ("id", "call", "desc", "cfg_ok", "body")
+    __slots__ = ("id", "call", "desc", "cfg_ok", "body", "group")
 
     def __init__(self, call, desc, cfg_ok=None):
-        self.id, self.call, self.desc, self.cfg_ok = None, call, desc, cfg_ok
+        self.id, self.call, self.desc, self.cfg_ok, self.group = None, call, desc, cfg_ok, ""
 
 
 def tu_source(header, fam, progs, prelude=""):
@@ -38,7 +38,12 @@ def run_programs(fam, header, progs, cases, configs, workdir, model_exe, nshards
     if _c.CFG_OVERRIDE:
         nshards = min(nshards, 6)      # configuration matrix: fewer, larger translation units per cell
     nshards = max(1, min(nshards, len(progs)))
-    shard_of = {p.id: (k % nshards) for k, p in enumerate(progs)}
+    if any(getattr(p, "group", "") for p in progs):
+        # programs of one group share shards (contiguous blocks): when one kind of program stops compiling, the others still run
+        order = sorted(progs, key=lambda p: (getattr(p, "group", "") or "", p.id))
+        shard_of = {p.id: min(nshards - 1, (k * nshards) // len(order)) for k, p in enumerate(order)}
+    else:
+        shard_of = {p.id: (k % nshards) for k, p in enumerate(progs)}
     records, build_fail = [], []
     by_shard = {}
     for c in cases:
